@@ -1063,7 +1063,9 @@ def sequences_under(fn, item, val, start=None, stop=None, limit=4000):
             if e["e"] == "ret":
                 ended = True
                 break
-        if ended or b == fn.exit or blk.noret:
+        if blk.noret and not ended:
+            continue            # the path ends in a call that does not return (failed assertion, abort): not a completion
+        if ended or b == fn.exit:
             out.add(tuple(seq))
             continue
         nxt = []
